@@ -339,7 +339,11 @@ def _case_key_from_statement(c: Any) -> Optional[Tuple[Any, ...]]:
     page = c.groups.get("page")
     if page is None:
         return None
-    return (c.groups.get("volume"), c.corrected_reporter(), page)
+    # the normalised reporter is the guessed *edition's* canonical name (e.g. "F.2d", not the family "F."), computed here without
+    # calling corrected_reporter() so that a change to that method is noticed
+    eg = getattr(c, "edition_guess", None)
+    rep = eg.short_name if eg is not None else c.groups.get("reporter")
+    return (c.groups.get("volume"), rep, page)
 
 
 def clauses_C06(cits: Sequence[Any], res: Any, inp: Any) -> List[Dict[str, Any]]:
@@ -1467,6 +1471,31 @@ def run_C10(col: Collector, seed: int, n: int, focus: Optional[str], hints: Any)
             col.add(_check_C10(case, col.observe))
             nc += 1
         col.bound_parts.append(f"clause C: {nc} sampled cases (plain over 'abc. ' up to 24 chars, 0..5 foreign insertions, 1..3 disjoint/touching spans, either engine; exact expected output)")
+        # long multi-line documents with repeated identical lines (both texts > 100 characters: the regime where a line-mode
+        # diff would be taken), citations on some lines wrapped in foreign tags
+        nl = 0
+        pool = ["Accord 2 U.S. 2.", "The rule was first announced in 1 U.S. 1 and later extended.", "The dissent relied instead on 3 U.S. 3.",
+                "See also 4 U.S. 4; 5 U.S. 5.", "It was so.", "Accord 2 U.S. 2.", "Id. at 7."]
+        cite_re = re.compile(r"\d+ U\.S\. \d+")
+        t_l = time.time() + 0.1 * budget
+        while nl < n * 5 and time.time() < t_l + 0.1 * budget:
+            lines = []
+            for _ in range(rng.randint(3, 9)):
+                ln_ = rng.choice(pool)
+                lines += [ln_] * rng.choice([1, 1, 2, 4])
+            plain = "\n".join(lines) + "\n"
+            spans = [list(m.span()) for m in cite_re.finditer(plain)]
+            inserts = []
+            for sp in spans:
+                if rng.random() < 0.5:
+                    inserts.append([sp[0], "<q>"])
+                    inserts.append([sp[1], "</q>"])
+            keep = [sp for sp in spans if rng.random() < 0.8] or spans[:1]
+            case = {"clause": "C", "plain": plain, "inserts": inserts, "annotations": keep, "use_dmp": rng.random() < 0.7}
+            col.count_case(json.dumps(case))
+            col.add(_check_C10(case, col.observe))
+            nl += 1
+        col.bound_parts.append(f"clause C: {nl} sampled multi-line documents (> 100 characters, repeated identical lines, citations on some lines wrapped in foreign tags)")
     col.exhaustive = ("B" in want)
 
 
